@@ -304,6 +304,7 @@ pub fn world_cfg(topo: Topology, seed: u64) -> WorldCfg {
         alt_targets: Vec::new(),
         blackouts: Vec::new(),
         reroutes: Vec::new(),
+        long_branch_extra: 0,
     }
 }
 
